@@ -355,7 +355,7 @@ func binop(op token.Token, t types.Type, x, y value) value {
 	if isSym(x) || isSym(y) {
 		return symBinop(op, t, x, y)
 	}
-	if (op == token.EQL || op == token.NEQ) && (containsSym(x) || containsSym(y)) {
+	if (op == token.EQL || op == token.NEQ) && comparableShape(t) && (containsSym(x) || containsSym(y)) {
 		r := symEquals(t, x, y)
 		if op == token.NEQ {
 			if b, ok := r.(bool); ok {
@@ -1061,6 +1061,8 @@ func callBuiltin(caller *frame, callpos token.Pos, fn *ssa.Builtin, args []value
 
 	case "len":
 		switch x := args[0].(type) {
+		case poison:
+			unsupported("use of a value that was not initialised (%s)", x.why)
 		case symstr:
 			return len(x)
 		case string:
@@ -1582,4 +1584,14 @@ func fandbits[F floaty](x, y F) F {
 		*(*uint64)(unsafe.Pointer(&x)) &= *(*uint64)(unsafe.Pointer(&y))
 	}
 	return x
+}
+
+
+// comparableShape: types whose == compares contents (slices, maps and functions only compare with nil)
+func comparableShape(t types.Type) bool {
+	switch t.Underlying().(type) {
+	case *types.Slice, *types.Map, *types.Signature, *types.Pointer, *types.Chan:
+		return false
+	}
+	return true
 }
